@@ -280,3 +280,92 @@ int main() {
     return 0;
 }
 ''' % {"decl": decl, "classes": classes, "pol": pol, "polt": polt}
+
+
+def prog_vfork(policy="default"):
+    """definitions on an intermediate class that has a virtual base; objects of four most derived classes
+    with different layouts go through each definition in turn"""
+    pol = "" if policy == "default" else ", " + policy
+    polt = "YOMM2_DEFAULT_POLICY" if policy == "default" else policy
+    return r"""
+#include <yorel/yomm2/core.hpp>
+#include <yorel/yomm2/symbols.hpp>
+#include <cstdio>
+using namespace yorel::yomm2;
+using Pol = %(polt)s;
+struct Base { virtual ~Base() {} int b = 1; };
+struct Pad { virtual ~Pad() {} long pad[3] = {1, 2, 3}; };
+struct Pad2 { virtual ~Pad2() {} long pad[5] = {1, 2, 3, 4, 5}; };
+struct Derived : virtual Base { int d = 2; };
+struct Leaf1 : Pad, Derived { int l = 3; };
+struct Leaf2 : Derived, Pad2 { int l = 4; };
+struct Leaf3 : Pad2, Pad, Derived { int l = 5; };
+use_classes<Base, Derived, Leaf1, Leaf2, Leaf3%(pol)s> YOMM2_GENSYM;
+struct Seen { const void* as_derived; int d; int extra; } seen;
+static void see(const Derived& d, int extra = 0) { seen.as_derived = &d; seen.d = d.d; seen.extra = extra; }
+template<class K> struct key;
+#define METHOD(NAME, ...) using NAME = method<key<struct NAME##_k>, __VA_ARGS__%(pol)s>
+METHOD(m_ref, int(virtual_<Base&>));
+METHOD(m_ref1, int(int, virtual_<Base&>));
+METHOD(m_cref, int(virtual_<const Base&>));
+METHOD(m_rref, int(virtual_<Base&&>));
+METHOD(m_ptr, int(virtual_<Base*>, int));
+METHOD(m_vptr, int(virtual_ptr<Base, Pol>));
+METHOD(m_vptr1, int(int, virtual_ptr<Base, Pol>, int));
+static int d_ref(Derived& d) { see(d); return 1; }
+static int d_ref1(int x, Derived& d) { see(d, x); return 1; }
+static int d_cref(const Derived& d) { see(d); return 1; }
+static int d_rref(Derived&& d) { see(d); return 1; }
+static int d_ptr(Derived* d, int x) { see(*d, x); return 1; }
+static int d_vptr(virtual_ptr<Derived, Pol> d) { see(*d); return 1; }
+static int d_vptr1(int x, virtual_ptr<Derived, Pol> d, int y) { see(*d, x * 10 + y); return 1; }
+#define ADD(M, F) static typename M::template add_function<F> YOMM2_GENSYM
+ADD(m_ref, d_ref); ADD(m_ref1, d_ref1); ADD(m_cref, d_cref); ADD(m_rref, d_rref); ADD(m_ptr, d_ptr);
+ADD(m_vptr, d_vptr); ADD(m_vptr1, d_vptr1);
+static Leaf1 l1; static Leaf2 l2; static Derived dd; static Leaf3 l3;
+struct Obj { const char* name; Base* base; Derived* derived; };
+static Obj objs[] = {{"L1", &l1, &l1}, {"L2", &l2, &l2}, {"D", &dd, &dd}, {"L3", &l3, &l3}, {"L2", &l2, &l2}, {"L1", &l1, &l1}};
+static void report(const char* kind, const Obj& o, int extra_expected) {
+    std::printf("fork kind=%%s obj=%%s same=%%d value=%%d extra=%%d\n", kind, o.name, seen.as_derived == o.derived, seen.d == 2, seen.extra == extra_expected);
+}
+int main() {
+    update<Pol>();
+    for (auto& o : objs) { seen = {}; m_ref::fn(*o.base); report("ref", o, 0); }
+    for (auto& o : objs) { seen = {}; m_ref1::fn(5, *o.base); report("ref@1", o, 5); }
+    for (auto& o : objs) { seen = {}; m_cref::fn(*o.base); report("cref", o, 0); }
+    for (auto& o : objs) { seen = {}; m_rref::fn(std::move(*o.base)); report("rref", o, 0); }
+    for (auto& o : objs) { seen = {}; m_ptr::fn(o.base, 6); report("ptr", o, 6); }
+    for (auto& o : objs) { seen = {}; m_vptr::fn(virtual_ptr<Base, Pol>(*o.base)); report("vptr", o, 0); }
+    for (auto& o : objs) { seen = {}; m_vptr1::fn(3, virtual_ptr<Base, Pol>(*o.base), 4); report("vptr@1", o, 34); }
+    return 0;
+}
+""" % {"pol": pol, "polt": polt}
+
+
+def prog_aggregate(n):
+    """aggregate<Tag<0>, ..., Tag<n-1>>: which elements get constructed, and how many times"""
+    return r"""
+#include <tuple>
+#include <yorel/yomm2/core.hpp>
+#include <yorel/yomm2/templates.hpp>
+#include <cstdio>
+#include <utility>
+using namespace yorel::yomm2;
+static int hits[%(n)d + 1];
+template<std::size_t N> struct Tag { Tag() { ++hits[N]; } };
+template<class Seq> struct mk;
+template<std::size_t... I> struct mk<std::index_sequence<I...>> { using type = aggregate<Tag<I>...>; };
+int main() {
+    { typename mk<std::make_index_sequence<%(n)d>>::type a; (void)a; }
+    int total = 0;
+    for (int i = 0; i < %(n)d; i++) total += hits[i];
+    std::printf("aggregate n=%(n)d constructed=%%d missing=[", total);
+    bool first = true;
+    for (int i = 0; i < %(n)d; i++) if (hits[i] == 0) { std::printf(first ? "%%d" : ", %%d", i); first = false; }
+    std::printf("] twice=[");
+    first = true;
+    for (int i = 0; i < %(n)d; i++) if (hits[i] > 1) { std::printf(first ? "%%d" : ", %%d", i); first = false; }
+    std::printf("]\n");
+    return 0;
+}
+""" % {"n": n}
